@@ -569,6 +569,22 @@ pub fn body(t: &str, a: &Arch, l: Layout, fi: usize, ext: &Ext) -> Vec<Term<pc::
             f.epilogue();
             f.ret();
         }
+        "unchecked_two_returns" => {
+            // the result of a must-check function is parked in a callee-saved register, the return register
+            // is overwritten, and the function returns at two different places (meant for a function without callers)
+            f.begin(0);
+            f.mov(f.p(0), f.c(l.s_path()));
+            f.call(ext.tid("chdir"), Some(1));
+            f.begin(1);
+            f.mov(f.s(0), f.ret_reg());
+            f.mov(f.ret_reg(), f.c(0));
+            f.op(f.zf(), E::INT_EQUAL, f.s(1), f.c(0));
+            f.cond(2, f.zf(), 3);
+            f.begin(2);
+            f.ret();
+            f.begin(3);
+            f.ret();
+        }
         "sink_write" => {
             // accesses relative to the pointer parameter: whether they are in bounds depends on the callers' objects
             f.begin(0);
@@ -1300,7 +1316,9 @@ impl InputSpec {
 /// Hand-composed multi-function projects (both tiers of C21 and C23): several callers of one
 /// callee that differ in what they pass (stack buffer / unknown value / constant / heap object),
 /// so that interprocedural merges over the callsites matter; and one project in which most checks fire.
-pub const SCENARIOS: [&[&str]; 8] = [
+pub const SCENARIOS: [&[&str]; 10] = [
+    &["unchecked_two_returns"],
+    &["unchecked_two_returns", "straight"],
     &["pass_stack", "pass_unknown", "sink_write"],
     &["pass_unknown", "pass_stack", "sink_write"],
     &["pass_stack", "pass_ret", "sink_write"],
